@@ -79,7 +79,7 @@ impl<E: ElemT> TableWorld<E> {
         }
         TableWorld { slots, ctx: RunCtx::new(cfg), peak: vec![(0, 0); n] }
     }
-    fn tab(&self, si: usize) -> &STable<E> {
+    pub(crate) fn tab(&self, si: usize) -> &STable<E> {
         self.slots[si].t.as_ref().unwrap()
     }
     fn hash_of(&self, si: usize, id: u32) -> u64 {
@@ -686,7 +686,8 @@ impl<E: ElemT> TableWorld<E> {
         //    5 match: Vacant -> insert, Occupied -> remove
         let id = if E::IS_ZST { 0 } else { op.a as u32 };
         let h = self.hash_of(si, id);
-        let mode = op.c.rem_euclid(6);
+        // 6 match: Vacant -> into_table (entry given up), Occupied -> into_mut + toggle
+        let mode = if op.c == 6 { 6 } else { op.c.rem_euclid(6) };
         let cands: Vec<TE> = self.slots[si].model.iter().filter(|e| e.id == id && e.hash == h).copied().collect();
         let mut newe = E::make(id, h);
         newe.set_payload(op.b as u32 & !TTOGGLE);
@@ -746,6 +747,21 @@ impl<E: ElemT> TableWorld<E> {
                     bk.push(newe);
                     None
                 }
+                6 => {
+                    bk.push(newe);
+                    match e {
+                        Entry::Vacant(v) => {
+                            let t = v.into_table();
+                            let _ = t.len();
+                            None
+                        }
+                        Entry::Occupied(o) => {
+                            let x = o.into_mut();
+                            x.set_payload(x.payload() ^ Self::TG);
+                            Some(te(x))
+                        }
+                    }
+                }
                 _ => match e {
                     Entry::Vacant(v) => Some(te(v.insert(newe).get())),
                     Entry::Occupied(o) => {
@@ -782,10 +798,11 @@ impl<E: ElemT> TableWorld<E> {
                 Some(ntok)
             }
             (1, Some(p)) | (2, Some(p)) => Some(model[p]),
-            (3, Some(p)) => {
+            (3, Some(p)) | (6, Some(p)) => {
                 model[p].payload ^= Self::TG;
                 Some(model[p])
             }
+            (6, None) => None,
             (4, _) => {
                 sim().probe(Probe::VacantDropped);
                 None
@@ -811,7 +828,18 @@ impl<E: ElemT> TableWorld<E> {
         let t = self.slots[si].t.as_mut().unwrap();
         let out = self.ctx.call(op, || {
             let mut v: Vec<TE> = Vec::new();
-            if mutating {
+            if op.c == 7 && mutating {
+                // through fold()
+                t.iter_hash_mut(h).fold((), |(), x| {
+                    v.push(te(x));
+                    x.set_payload(x.payload() ^ Self::TG);
+                });
+            } else if op.c == 7 {
+                v = t.iter_hash(h).fold(v, |mut acc, x| {
+                    acc.push(te(x));
+                    acc
+                });
+            } else if mutating {
                 for x in t.iter_hash_mut(h) {
                     if v.len() >= stop_after {
                         break;
@@ -880,20 +908,30 @@ impl<E: ElemT> TableWorld<E> {
         let base = (op.b as u32) & !TTOGGLE;
         let fc = self.fctx(si, op);
         let hashes: Vec<u64> = ids.iter().map(|&i| self.hash_of(si, i)).collect();
+        // get_many_unchecked_mut: "no two requests resolve to one entry" is the caller's obligation; that is known
+        // only for pairwise different ids, a lawful closure and no id stored twice
+        let unchecked = {
+            let model = &self.slots[si].model;
+            op.c == 3 && self.ctx.functional() && (0..n).all(|i| (0..i).all(|j| ids[i] != ids[j])) && ids.iter().all(|i| model.iter().filter(|m| m.id == *i).count() <= 1)
+        };
+        if unchecked {
+            sim().probe(Probe::GetManyUnchecked);
+        }
         let t = self.slots[si].t.as_mut().unwrap();
         type R = Vec<Option<(TE, usize)>>;
         let idr = &ids;
         macro_rules! many {
             ($n:expr) => {{
                 let hs: [u64; $n] = std::array::from_fn(|i| hashes[i]);
-                let r = t.get_many_mut(hs, |i, x| {
+                let eq = |i: usize, x: &E| {
                     tick(Class::Eq);
                     match lie {
                         0 => x.id() == idr[i],
                         1 => true,
                         _ => x.id() % 2 == idr[i] % 2,
                     }
-                });
+                };
+                let r = if unchecked { unsafe { t.get_many_unchecked_mut(hs, eq) } } else { t.get_many_mut(hs, eq) };
                 r.into_iter()
                     .enumerate()
                     .map(|(i, o)| {
@@ -1171,6 +1209,9 @@ impl<E: ElemT> TableWorld<E> {
         fc.toggles = toggle;
         let mut visited: Vec<TE> = Vec::new();
         let vis = &mut visited;
+        let n0 = self.slots[si].model.len();
+        let mut hint_errs: Vec<String> = Vec::new();
+        let er = &mut hint_errs;
         let t = self.slots[si].t.as_mut().unwrap();
         let out = self.ctx.call(op, || {
             let mut it = t.extract_if(|x| {
@@ -1181,15 +1222,8 @@ impl<E: ElemT> TableWorld<E> {
                 }
                 yes.contains(&x.id())
             });
-            let mut got: Vec<E> = Vec::new();
-            let mut n = 0;
-            while steps < 0 || n < steps {
-                match it.next() {
-                    Some(x) => got.push(x),
-                    None => break,
-                }
-                n += 1;
-            }
+            let (got, errs) = crate::iterdrv::drive_extract(&mut it, steps, n0);
+            *er = errs;
             if forget {
                 std::mem::forget(it);
             } else {
@@ -1214,6 +1248,9 @@ impl<E: ElemT> TableWorld<E> {
         }
         if !self.ctx.functional() {
             return Ok(());
+        }
+        if let Some(e) = hint_errs.into_iter().next() {
+            vio!(self, "iterlen/ExtractIf", "{e}");
         }
         let model = &mut self.slots[si].model;
         let total = model.len();
@@ -1245,6 +1282,8 @@ impl<E: ElemT> TableWorld<E> {
     fn op_drain(&mut self, si: usize, op: &Op) -> VResult {
         let steps = op.a;
         let forget = op.b == 1;
+        // b == 2: after the next() calls the rest is consumed through fold()
+        let fold = op.b == 2;
         let fc = self.fctx(si, op);
         let cap0 = self.tab(si).capacity();
         let size0 = self.tab(si).allocation_size();
@@ -1270,7 +1309,13 @@ impl<E: ElemT> TableWorld<E> {
                 }
                 n += 1;
             }
-            if forget {
+            if fold {
+                sim().probe(Probe::DrainFold);
+                got = it.fold(got, |mut acc, x| {
+                    acc.push(x);
+                    acc
+                });
+            } else if forget {
                 std::mem::forget(it);
             } else {
                 drop(it);
@@ -1281,7 +1326,7 @@ impl<E: ElemT> TableWorld<E> {
             let mut s = sim();
             if forget {
                 s.probe(Probe::LeakDrain);
-            } else if steps >= 0 {
+            } else if steps >= 0 && !fold {
                 s.probe(Probe::EarlyDropDrain);
             }
         }
@@ -1324,7 +1369,7 @@ impl<E: ElemT> TableWorld<E> {
         if g.len() + rest.len() != model.len() {
             vio!(self, "drain/yield", "drain yielded elements that were not in the table, or one twice");
         }
-        let complete = steps < 0 || steps as usize >= n0;
+        let complete = fold || steps < 0 || steps as usize >= n0;
         g.sort();
         if complete && g.len() != model.len() {
             vio!(self, "drain/yield", "a fully consumed drain yielded {} elements, the table held {}", g.len(), model.len());
